@@ -198,6 +198,13 @@ func rtNoPanic(fr *frame, a []value) value {
 	i := fr.i
 	id := a[0].(string)
 	depth := i.depth
+	i.ex.asserts++
+	ok := false
+	defer func() {
+		if ok {
+			i.ex.discharged++
+		}
+	}()
 	func() {
 		defer func() {
 			r := recover()
@@ -224,6 +231,7 @@ func rtNoPanic(fr *frame, a []value) value {
 			i.recordFail(id, "panic: "+msg)
 		}()
 		call(i, fr, token.NoPos, a[1], nil)
+		ok = true
 	}()
 	return nil
 }
